@@ -161,6 +161,13 @@ Proof.
   reflexivity.
 Qed.
 
+Lemma parse_pseudo_attribute_rel name s : SInv s ->
+  parse_pseudo_attribute_s text name s = parse_pseudo_attribute text name s.
+Proof.
+  intros Hs. unfold parse_pseudo_attribute_s, parse_pseudo_attribute. cbv zeta.
+  rewrite parse_attribute_rel by auto. reflexivity.
+Qed.
+
 Lemma decl_consume_spaces_rel s : SInv s ->
   decl_consume_spaces_s text s = decl_consume_spaces text s.
 Proof.
@@ -179,40 +186,48 @@ Proof.
   dsh as [s2| | |]. cbn in P2.
   rw_ifsw. destruct (starts_with s2 (b "version")); cbn [negb].
   2:{ apply (skip_string_s_eq text); eauto. }
-  rewrite parse_attribute_rel by eauto.
-  pose proof (StrictTok.parse_attribute_safe text Hvalid s2 ltac:(eauto)) as P3.
+  rewrite parse_pseudo_attribute_rel by eauto.
+  pose proof (StrictTok.parse_pseudo_attribute_safe text Hvalid (b "version") s2 ltac:(eauto)) as P3.
   dsh as [s3| | |]. cbn in P3.
   rewrite decl_consume_spaces_rel by eauto.
   pose proof (StrictTok.decl_consume_spaces_safe text Hvalid s3 ltac:(eauto)) as P4.
   dsh as [s4| | |]. cbn in P4.
   rw_ifsw.
   assert (E5 : (if starts_with s4 (b "encoding")
-                then let! s := parse_attribute_s text s4 in decl_consume_spaces_s text s else Ok s4)
+                then let! s := parse_pseudo_attribute_s text (b "encoding") s4 in decl_consume_spaces_s text s else Ok s4)
              = (if starts_with s4 (b "encoding")
-                then let! s := parse_attribute text s4 in decl_consume_spaces text s else Ok s4)).
-  { destruct (starts_with s4 _); [|reflexivity]. rewrite parse_attribute_rel by eauto.
-    pose proof (StrictTok.parse_attribute_safe text Hvalid s4 ltac:(eauto)) as P.
+                then let! s := parse_pseudo_attribute text (b "encoding") s4 in decl_consume_spaces text s else Ok s4)).
+  { destruct (starts_with s4 _); [|reflexivity]. rewrite parse_pseudo_attribute_rel by eauto.
+    pose proof (StrictTok.parse_pseudo_attribute_safe text Hvalid (b "encoding") s4 ltac:(eauto)) as P.
     dsh as [s5| | |]. cbn in P. apply decl_consume_spaces_rel; eauto. }
   rewrite E5. clear E5.
   assert (P5 : safe (if starts_with s4 (b "encoding")
-                then let! s := parse_attribute text s4 in decl_consume_spaces text s else Ok s4) (Ext s4)).
+                then let! s := parse_pseudo_attribute text (b "encoding") s4 in decl_consume_spaces text s else Ok s4) (Ext s4)).
   { destruct (starts_with s4 _); [|cbn; eauto].
-    eapply safe_bind; [eapply StrictTok.parse_attribute_safe; eauto|]. intros s5 H5.
+    eapply safe_bind; [eapply StrictTok.parse_pseudo_attribute_safe; eauto|]. intros s5 H5.
     eapply safe_mono; [eapply StrictTok.decl_consume_spaces_safe; eauto|]. intros s6 H6. ext. }
   dsh as [s5| | |].
   cbn in P5.
   rw_ifsw.
-  assert (E6 : (if starts_with s5 (b "standalone") then parse_attribute_s text s5 else Ok s5)
-             = (if starts_with s5 (b "standalone") then parse_attribute text s5 else Ok s5)).
-  { destruct (starts_with s5 _); [|reflexivity]. apply parse_attribute_rel; eauto. }
+  assert (E6 : (if starts_with s5 (b "standalone") then parse_pseudo_attribute_s text (b "standalone") s5 else Ok s5)
+             = (if starts_with s5 (b "standalone") then parse_pseudo_attribute text (b "standalone") s5 else Ok s5)).
+  { destruct (starts_with s5 _); [|reflexivity]. apply parse_pseudo_attribute_rel; eauto. }
   rewrite E6. clear E6.
-  assert (P6 : safe (if starts_with s5 (b "standalone") then parse_attribute text s5 else Ok s5) (Ext s5)).
-  { destruct (starts_with s5 _); [|cbn; eauto]. eapply StrictTok.parse_attribute_safe; eauto. }
+  assert (P6 : safe (if starts_with s5 (b "standalone") then parse_pseudo_attribute text (b "standalone") s5 else Ok s5) (Ext s5)).
+  { destruct (starts_with s5 _); [|cbn; eauto]. eapply StrictTok.parse_pseudo_attribute_safe; eauto. }
   dsh as [s6| | |].
   cbn in P6. cbv zeta.
   pose proof (skip_spaces_safe text Hvalid s6 ltac:(eauto)) as P7.
   apply (skip_string_s_eq text); eauto.
 Qed.
+
+Lemma parse_external_literal_rel s :
+  parse_external_literal_s text s = parse_external_literal text s.
+Proof. reflexivity. Qed.
+
+Lemma parse_pubid_literal_rel s :
+  parse_pubid_literal_s text s = parse_pubid_literal text s.
+Proof. reflexivity. Qed.
 
 Lemma parse_external_id_rel s : SInv s ->
   parse_external_id_s text s = parse_external_id text s.
@@ -234,6 +249,7 @@ Proof.
   destruct found; [|reflexivity]. destruct is_ge; [|reflexivity]. cbv zeta.
   pose proof (skip_spaces_safe text Hvalid s1 ltac:(eauto)) as P2.
   rw_ifsw. destruct (starts_with (skip_spaces s1) (b "NDATA")) eqn:E; [|reflexivity].
+  destruct (negb (starts_with_space s1)); [reflexivity|].
   pose proof (advance_kw text Hvalid (b "NDATA") 5 (skip_spaces s1) ltac:(eauto) E eq_refl eq_refl) as P3.
   dsh as [s3| | |]. cbn in P3.
   pose proof (consume_spaces_safe text Hvalid s3 ltac:(eauto)) as P4.
